@@ -658,27 +658,33 @@ bool Interpret::getAssignment() const {
 }
 
 namespace { // Helper for get-value command
-void printAstTermNode(ASTNode const & astNode) {
+void printAstTermNode(Logic const & logic, ASTNode const & astNode) {
+    // Symbols are stored without their quotes: quote them again where the bare name would not read back
+    auto printSymbol = [&logic](ASTNode const & symbolNode) {
+        char const * name = symbolNode.getValue();
+        if (name == nullptr) { throw std::logic_error("Unsupported term type"); }
+        bool const isSymbol = symbolNode.getType() == SYM_T or symbolNode.getType() == QSYM_T;
+        std::cout << (isSymbol ? logic.protectName(name, false) : std::string(name));
+    };
     ASTType t = astNode.getType();
     if (t == TERM_T) {
         const char* name = (**(astNode.children->begin())).getValue();
         std::cout << name;
     } else if (t == QID_T) {
             ASTNode const * symbolNode = (*(astNode.children->begin()));
-            char const * name = symbolNode->getValue();
-            std::cout << name;
+            printSymbol(*symbolNode);
     } else if ( t == LQID_T ) {
         // Multi-argument term
         auto node_iter = astNode.children->begin();
-        const char* name = (**node_iter).getValue(); node_iter++;
         std::cout << "(";
-        std::cout << name << " ";
+        printSymbol(**node_iter); node_iter++;
+        std::cout << " ";
         bool first = true;
         for (; node_iter != astNode.children->end(); node_iter++) {
             if (not first) {
                 std::cout << " ";
             }
-            printAstTermNode(**node_iter);
+            printAstTermNode(logic, **node_iter);
             first = false;
         }
         std::cout << ")";
@@ -691,11 +697,12 @@ void printAstTermNode(ASTNode const & astNode) {
         assert(attr_l.children->size() == 1);
         ASTNode& name_attr = **(attr_l.children->begin());
         std::cout << "(!";
-        printAstTermNode(named_term);
+        printAstTermNode(logic, named_term);
         std::cout << " " << name_attr.getValue();
         ASTNode const & sym = **(name_attr.children->begin());
         assert(sym.getType() == SYM_T or sym.getType() == QSYM_T);
-        std::cout << " " << sym.getValue();
+        std::cout << " ";
+        printSymbol(sym);
         std::cout << ')';
     } else if (t == LET_T) {
         std::cout << "(let ";
@@ -706,15 +713,15 @@ void printAstTermNode(ASTNode const & astNode) {
         for (ASTNode const* vb : *(**ch).children) {
             if (not first) { std::cout << ' '; };
             first = false;
-            std::cout << "(" << vb->getValue() << " ";
-            printAstTermNode(**vb->children->begin());
+            std::cout << "(" << logic.protectName(vb->getValue(), false) << " ";
+            printAstTermNode(logic, **vb->children->begin());
             std::cout << ")";
         }
         std::cout << ')';
         // print final term
         ch++;
         std::cout << ' ';
-        printAstTermNode(**ch);
+        printAstTermNode(logic, **ch);
         std::cout << ')';
     }
     else {
@@ -744,7 +751,7 @@ void Interpret::getValue(std::vector<ASTNode*> const & terms)
         std::cout << '(';
         for (auto const & valPair : values) {
             std::cout << '(';
-            printAstTermNode(*valPair.first);
+            printAstTermNode(logic, *valPair.first);
             auto value = logic.termToSMT2String(valPair.second);
             std::cout << " " << value << ')';
         }
